@@ -54,6 +54,10 @@ class VecEval:
 
     def key(self, n):
         n = strip(n)
+        # an object held through a pointer member / smart pointer: *_diag, *_diag.get()
+        while (n.get("k") == "Un" and n.get("op") == "*") or (n.get("k") == "OpCall" and n.get("op") == "*" and len(n.get("a", [])) == 1) \
+                or (n.get("k") == "MCall" and n.get("n") == "get" and not n.get("a") and n.get("obj") is not None):
+            n = strip(n["e"] if n.get("k") == "Un" else (n["a"][0] if n.get("k") == "OpCall" else n["obj"]))
         f = this_field(n)
         if f is not None:
             return ("m", f)
